@@ -72,6 +72,11 @@ def handleHandler : List Sexp → Option String
     match guarded (← hDataset? ds) (← hStr? p) (← hStr? q) with
     | .ok (k, _) => pure ("ok:" ++ hKind k)
     | .error e => pure ("err:" ++ hExc e)
+  | [atom "h-clen", ds, p, q] => do
+    -- the Content-length header of the data response (`calculate_size`): a number, `none`, or `n/a`
+    match guarded (← hDataset? ds) (← hStr? p) (← hStr? q) with
+    | .ok (.dods, cds) => pure (match contentLength cds with | some n => toString n | none => "none")
+    | _ => pure "n/a"
   | [atom "h-pinned", ds, p, q] => do
     pure (hOutcome (handlePinned intText (← hDataset? ds) (← hStr? p) (← hStr? q)))
   | [atom "h-parsece", q] => do
